@@ -152,28 +152,44 @@ def _update(ctx, prog):
 
 
 def _monotone(ctx, prog):
-    f = ctx.fn(r"UpdateBorrowingState::<M, DECIMALS>::execute_one_side")
-    if f is not None:
-        ps = H.success_paths(f)
+    # anchored on the public entry UpdateBorrowingState::execute; a private per-side helper may or may not exist (h_B.events
+    # expands private same-file helpers, so both shapes give the same events)
+    ex = ctx.fn(r"UpdateBorrowingState<M, DECIMALS> as gmsol_model::action::MarketAction>::execute")
+    if ex is not None:
+        ps = H.success_paths(ex)
         bad = []
         for p in ps:
-            ev = p["ev"]
-            cs = [c for c in p["calls"] if c.short == "PoolExt::apply_delta_amount"]
-            if len(cs) != 1:
-                bad.append("%d applications" % len(cs))
-                continue
-            a = ev.call_args(cs[0])
-            if str(a[0]) != "BorrowingFeeMarketMut::borrowing_factor_pool_mut(self.market)?" or str(a[1]) != "is_long":
-                bad.append("pool/side = %s / %s" % (a[0], a[1]))
-            d = a[2]
-            m = d.a[0] if d.k == "try" else d
-            if not (m.k == "call" and m.a[0] == "Unsigned::to_signed" and
-                    re.match(r"^BorrowingFeeMarketExt::next_cumulative_borrowing_factor\(self\.market, is_long, self\.prices, duration_in_seconds\)\?\.1$", str(m.a[1][0]))):
-                bad.append("delta = %s" % str(d)[:120])
-        neg = [c.short for c in f.calls if re.search(r"(to_opposite_signed|checked_neg|Neg::neg|checked_sub)$", c.short)]
-        ctx.ob("factor-monotone:execute_one_side", not bad and len(ps) >= 1 and not neg,
-               "borrowing_factor_pool_mut[is_long] += to_signed(next_cumulative_borrowing_factor(market, is_long, prices, duration)?.1) "
-               "(%d path(s); negations: %s)%s" % (len(ps), neg, "; %s" % bad[:2] if bad else ""), where=f.where())
+            evs = H.events(ex, p)
+            eff = [e for e in H.pool_effects(ex, p) if e["pool"] == "borrowing_factor"]
+            sides = sorted(str(e["side"]) for e in eff)
+            if sides != ["false", "true"]:
+                bad.append("borrowing-factor updates for sides %s (expected one for true and one for false)" % sides)
+            for e in eff:
+                if str(e.get("recv")) != "BorrowingFeeMarketMut::borrowing_factor_pool_mut(self.market)?":
+                    bad.append("pool = %s" % e.get("recv"))
+                d = e["amount"]
+                m = d.a[0] if d.k == "try" else d
+                okd = m.k == "call" and m.a[0] == "Unsigned::to_signed"
+                if okd:
+                    r, proj = m.a[1][0], ""
+                    while r.k in ("try", "field"):
+                        if r.k == "field":
+                            proj = "." + r.a[1] + proj
+                        r = r.a[0]
+                    okd = r.k == "call" and r.a[0] == "BorrowingFeeMarketExt::next_cumulative_borrowing_factor" and proj == ".1" and \
+                        [str(x) for x in r.a[1][:3]] == ["self.market", str(e["side"]), "self.prices"] and \
+                        re.match(r"^BorrowingFeeMarketMut::just_passed_in_seconds_for_borrowing\(self\.market\)\?$", str(r.a[1][3])) is not None
+                if not okd:
+                    bad.append("delta[%s] = %s" % (e["side"], str(d)[:140]))
+            neg = sorted(set(e["short"] for e in evs if re.search(r"(to_opposite_signed|checked_neg|Neg::neg|checked_sub)$", e["short"])))
+            if neg:
+                bad.append("negating / subtracting calls: %s" % neg)
+        ctx.ob("factor-monotone:execute", not bad and len(ps) >= 1,
+               "UpdateBorrowingState::execute: for each side s, borrowing_factor_pool_mut[s] += to_signed(next_cumulative_borrowing_factor(market, s, prices, "
+               "just_passed_seconds)?.1), nothing negated (%d path(s), private helpers expanded)%s" % (len(ps), "; VIOLATED: %s" % sorted(set(bad))[:2] if bad else ""),
+               where=ex.where())
+        ctx.ob("factor-monotone:both-sides", not [b for b in bad if b.startswith("borrowing-factor updates")] and len(ps) >= 1,
+               "execute updates both sides exactly once on every success path (%d)" % len(ps), where=ex.where())
     g = ctx.fn(r"BorrowingFeeMarketExt::next_cumulative_borrowing_factor")
     if g is not None:
         ps = H.success_paths(g)
@@ -195,21 +211,14 @@ def _monotone(ctx, prog):
                "returns (cumulative_borrowing_factor(is_long) + delta, delta) with delta = borrowing_factor_per_second(is_long, prices) * duration (unsigned checked_mul)%s" % (
                    "; %s" % bad[:1] if bad else ""), where=g.where())
         ctx.ob("factor-monotone:unsigned-return", g.ret.count("Num") == 2 and "Signed" not in g.ret, "return type is a pair of the unsigned Num: %s" % g.ret[:120], where=g.where(), nontrivial=False)
-    ex = ctx.fn(r"UpdateBorrowingState<M, DECIMALS> as gmsol_model::action::MarketAction>::execute")
-    if ex is not None:
-        ps = H.success_paths(ex)
-        bad = []
-        for p in ps:
-            cs = H.path_calls(p, r"::execute_one_side$")
-            sides = sorted(str(p["ev"].call_args(c)[1]) for c in cs)
-            if sides != ["false", "true"]:
-                bad.append("sides %s" % sides)
-        ctx.ob("factor-monotone:both-sides", not bad and len(ps) >= 1, "execute updates both sides on every success path (%d)%s" % (len(ps), "; %s" % bad[:1] if bad else ""), where=ex.where())
     cs = prog.callers_of("gmsol_model::market::borrowing::BorrowingFeeMarketMut::borrowing_factor_pool_mut")
     fns = sorted(set(c.fn.id for c in cs if c.fn.crate == "gmsol_model"))
-    bad = [x for x in fns if not re.search(r"(UpdateBorrowingState::<M, DECIMALS>::execute_one_side$|^<&mut M as gmsol_model::market::borrowing::BorrowingFeeMarketMut<DECIMALS>>::)", x)]
-    ctx.ob("factor-monotone:single-writer", not bad and len(fns) >= 2, "borrowing_factor_pool_mut is obtained only in %s%s" % (
-        [short_path(x) for x in fns], "; UNEXPECTED %s" % bad if bad else ""), where="crates/model/src/market/borrowing.rs")
+    exfile = ex.file if ex is not None else "crates/model/src/action/update_borrowing_state.rs"
+    bad = [x for x in fns if not (re.search(r"^<&mut M as gmsol_model::market::borrowing::BorrowingFeeMarketMut<DECIMALS>>::", x) or
+                                  (prog.fns[x].file == exfile and "UpdateBorrowingState" in x))]
+    ctx.ob("factor-monotone:single-writer", not bad and len(fns) >= 2,
+           "borrowing_factor_pool_mut is obtained only by UpdateBorrowingState (its execute or private helpers) and the forwarding impl: %s%s" % (
+               [short_path(x) for x in fns], "; UNEXPECTED %s" % bad if bad else ""), where="crates/model/src/market/borrowing.rs")
 
 
 def _pending(ctx, prog):
